@@ -30,7 +30,7 @@ QUICK = [
 THOROUGH = QUICK + [
     ("mixed-faults", ["chained=0", "scan=1"]),
     ("mixed-chained", ["scan=1", "nak=0", "crc=0", "ok1=0", "arblose=0"]),
-    ("scan-twice", ["simple=0", "chained=0", "scan=2", "scanw=15"]),
+    ("scan-and-wait", ["simple=0", "chained=0", "scan=1", "scanw=15"]),        # a full scan and a waiting single-address scan share the queue
     ("scan-one-slave-no-extra", ["simple=0", "chained=0", "scan=1", "preseen=1", "scanmsg=0", "scanw=08"]),
     ("traffic-scan", ["chained=0", "scan=1", "f1=1", "f2=1", "nak=0", "crc=0", "arblose=0", "ok1=0", "to=0", "preseen=0"]),
 ]
@@ -145,7 +145,7 @@ def run_growth(ctx):
     nviol = 0
     for name, args in (THOROUGH if ctx.thorough else QUICK):
         gf, rf = "%s/g-%s.ndjson" % (wd, name), "%s/r-%s.ndjson" % (wd, name)
-        hargs = args + ["workers=%d" % (8 if ctx.thorough else 6), "maxnodes=%d" % (120000 if ctx.thorough else 30000)]
+        hargs = args + ["workers=%d" % (8 if ctx.thorough else 6), "maxnodes=%d" % (70000 if ctx.thorough else 30000)]
         out = recs.run_harness(ctx, exe, ["graph", gf] + hargs + ["recs=" + rf])
         info = json.loads(out.strip().splitlines()[-1])
         stats, found = _check_graph(ctx, gf, "C04bh-%s" % name)
